@@ -600,3 +600,73 @@ def ax_idiv_trunc(a: int, b: int) -> bool:
     and k*b < a + b < 2**53)"""
     return (not (0 <= a < 4503599627370496 and 0 < b < 4503599627370496)
             or (f_trunc(f_idiv(a, b)) == a // b and f_isfinite(f_idiv(a, b))))
+
+
+# ------------------------------------------------------------------ decimals (C16)
+# decimal.Decimal values are opaque objects; the writers read them through as_tuple() = (sign, digits, exponent):
+# sign is 0 or 1, digits a tuple of decimal digits, the exponent an int for finite numbers (a str for NaN / Infinity).
+@opaque
+def dec_sign(x: object) -> int:
+    return x.as_tuple()[0]
+
+
+@opaque
+def dec_digits(x: object) -> tuple:
+    return x.as_tuple()[1]
+
+
+@opaque
+def dec_exp(x: object) -> object:
+    return x.as_tuple()[2]
+
+
+@spec
+def is_decimal(x: object) -> bool:
+    return is_lib(x, "decimal.Decimal")
+
+
+@spec
+def DIGITS_OK(ds: tuple, hi: int) -> bool:
+    """the first hi elements are decimal digits"""
+    if hi <= 0:
+        return True
+    return DIGITS_OK(ds, hi - 1) and isinstance(ds[hi - 1], int) and not isinstance(ds[hi - 1], bool) and 0 <= ds[hi - 1] and ds[hi - 1] <= 9
+
+
+@spec
+def DIGVAL(ds: tuple, hi: int) -> int:
+    """the number written by the first hi digits"""
+    if hi <= 0:
+        return 0
+    return DIGVAL(ds, hi - 1) * 10 + ds[hi - 1]
+
+
+@spec
+def UNSCALED(x: object, scale: int) -> int:
+    """the unscaled integer of the decimal x at the given scale: (-1)**sign * digits * 10**(exponent + scale)
+    (meaningful when exponent + scale >= 0, i.e. x has no more fractional digits than the scale)"""
+    if dec_sign(x) == 1:
+        return -(pow10(dec_exp(x) + scale) * DIGVAL(dec_digits(x), len(dec_digits(x))))
+    return pow10(dec_exp(x) + scale) * DIGVAL(dec_digits(x), len(dec_digits(x)))
+
+
+@axiom("bit_length")
+def ax_bit_length(x: int) -> bool:
+    """a non-negative integer is below 2**bit_length (and bit_length is not negative)"""
+    return not x >= 0 or (bit_length(x) >= 0 and x < 2 ** bit_length(x))
+
+
+@spec
+def repeat_tuple(t: tuple, n: int) -> tuple:
+    """t * n (right-unfolded: n copies, the last one appended)"""
+    if n <= 0:
+        return ()
+    return repeat_tuple(t, n - 1) + t
+
+
+@spec
+def FITS_SIGNED(x: int, n: int) -> bool:
+    """x is representable in n bytes of two's complement"""
+    if n <= 0:
+        return x == 0
+    return -(2 ** (8 * n - 1)) <= x and x < 2 ** (8 * n - 1)
